@@ -48,8 +48,24 @@ def graph_run(prop, tier, seed, module, mc_module, cfgs, required_tags, level_no
         cfgjson = os.path.join(wd, cfg.replace(".cfg", "") + ".cfg.json")
         json.dump(consts, open(cfgjson, "w"))
         rep_path = os.path.join(wd, cfg.replace(".cfg", "") + ".report.json")
-        vlib.run_vh(["replay", module, "--cfg", cfgjson, "--edges", graph, "--out", rep_path, "--maxdiv", "2"])
-        rep = json.load(open(rep_path))
+        # representative paths: the quick tier uses one order of the outgoing edges (derived from the seed), the thorough tier
+        # three; the reports are merged (edge counts of the first, divergences of all)
+        rep = None
+        for sh in ([seed] if tier == "quick" else [0, seed, seed + 1]):
+            os.environ["VH_SHUFFLE"] = str(sh)
+            try:
+                vlib.run_vh(["replay", module, "--cfg", cfgjson, "--edges", graph, "--out", rep_path, "--maxdiv", "2"])
+            finally:
+                os.environ.pop("VH_SHUFFLE", None)
+            r1 = json.load(open(rep_path))
+            if rep is None:
+                rep = r1
+            else:
+                rep["ops_executed"] += r1["ops_executed"]
+                rep["edges_masked"] = max(rep["edges_masked"], r1["edges_masked"])
+                rep["divergences"] += r1["divergences"]
+                for t, c in r1["divergent_edges_by_tag"].items():
+                    rep["divergent_edges_by_tag"][t] = max(rep["divergent_edges_by_tag"].get(t, 0), c)
         total_states += r["stats"]["distinct"]
         total_edges += nedges
         total_replayed += rep["edges_replayed"]
